@@ -587,6 +587,8 @@ class Unit:
 
         # ---- emit
         self.emit("// @src %s:%d-%d fn %s  sha256=%s" % (args["file"], fn["line_start"], fn["line_end"], fid, sha[:16]), None)
+        if "attr" in args:
+            self.emit(unesc(args["attr"]), "sidecar:%s:%d" % (rel, startline))
         fn["gen_start"] = len(self.lines) + 1
         self.cur_fn = fn
         for l in sig.split("\n"):
@@ -648,6 +650,18 @@ class Unit:
         srcidx = [k for k in range(lo, hi) if self.lines[k][1] and not self.lines[k][1].startswith("sidecar:")]
         joined = "\n".join(self.lines[k][0] for k in srcidx)
         # strip doc comments/attrs inside body without changing the number of lines
+        jm = mask(joined)
+        out = list(joined)
+        # R1.hook: a statement guarded by #[cfg(pricelevel_verif)] is verification instrumentation, not library code
+        for hm in re.finditer(r"#\[cfg\(pricelevel_verif\)\]", jm):
+            e = jm.find(";", hm.end())
+            if e < 0:
+                raise ExtractError("hook attribute without statement in %s" % fid)
+            for q in range(hm.start(), e + 1):
+                if out[q] != "\n":
+                    out[q] = " "
+            self.counts["R1.hook"] = self.counts.get("R1.hook", 0) + 1
+        joined = "".join(out)
         jm = mask(joined)
         out = list(joined)
         i = 0
